@@ -38,6 +38,16 @@ M = [
  ("C15-registry-trimmed", "bromelia/base.py", "                if random_identifier not in DiameterRequest.hop_by_hop_identifiers:\n                    DiameterRequest.hop_by_hop_identifiers.append(random_identifier)", "                if random_identifier not in DiameterRequest.hop_by_hop_identifiers:\n                    del DiameterRequest.hop_by_hop_identifiers[:-64]\n                    DiameterRequest.hop_by_hop_identifiers.append(random_identifier)", ["C15"]),
  ("C17-boundary-4999", "bromelia/utils.py", "    if result_code >= 4001 and result_code < 5000:", "    if result_code >= 4001 and result_code < 4999:", ["C17", "C12"]),
  ("C20-time-seconds-only", "bromelia/types.py", "            timestamp = diff.days*24*60*60 + diff.seconds", "            timestamp = (diff.days % 49710)*24*60*60 + diff.seconds", ["C20", "C10"]),
+ # --- second batch: subtler slips
+ ("C07-dpa-e2e-not-copied", "bromelia/process.py", "        answer.header.hop_by_hop = msg.header.hop_by_hop\n        answer.header.end_to_end = msg.header.end_to_end\n\n        return answer", "        answer.header.hop_by_hop = msg.header.hop_by_hop\n        if msg.header.command_code != DISCONNECT_PEER_MESSAGE:\n            answer.header.end_to_end = msg.header.end_to_end\n\n        return answer", ["C07"]),
+ ("C07-zero-hbh-skipped", "bromelia/process.py", "        answer.header.hop_by_hop = msg.header.hop_by_hop\n        answer.header.end_to_end = msg.header.end_to_end\n\n        return answer", "        if int.from_bytes(msg.header.hop_by_hop, 'big'):\n            answer.header.hop_by_hop = msg.header.hop_by_hop\n        answer.header.end_to_end = msg.header.end_to_end\n\n        return answer", ["C07"]),
+ ("C08-peer-close-not-noticed", "bromelia/transport.py", "                tcp_connection.debug(f\"[Socket-{self.sock_id}] Peer closed \"\\\n                                     f\"connection\")\n                self._stop_threads = True", "                tcp_connection.debug(f\"[Socket-{self.sock_id}] Peer closed \"\\\n                                     f\"connection\")", ["C08", "C06"]),
+ ("C04-app-queue-lifo", "bromelia/setup.py", "self.postprocess_recv_messages = queue.Queue()", "self.postprocess_recv_messages = queue.LifoQueue()", ["C04"]),
+ ("C14-notify-before-update", "bromelia/bromelia.py", "            p_answer.update_msg(msg)\n\n            worker.remove_pending_answer(p_answer)", "            worker.remove_pending_answer(p_answer)\n            p_answer.update_msg(msg)", ["C14"]),
+ ("C13-exception-clause-narrowed", "bromelia/bromelia.py", "            answer = callback_function(request)\n        except Exception as e:", "            answer = callback_function(request)\n        except (ValueError, KeyError, TypeError, AttributeError) as e:", ["C13"]),
+ ("C06-dpa-sent-for-invalid-dpr-only", "bromelia/statemachine.py", "        if self.processor.is_valid_disconnect_peer(msg=self.msg):\n            dpa = self.processor.create_answer(msg=self.msg)", "        if not self.processor.is_valid_disconnect_peer(msg=self.msg):\n            dpa = self.processor.create_answer(msg=self.msg)", ["C06", "C07"]),
+ ("C06-closing-ignores-peer-disconnect", "bromelia/statemachine.py", "        self.set_closing_state(set_name=True)\n\n        if self.is_set_release_signal_from_peer():\n            self.set_closed_state()\n            return\n", "        self.set_closing_state(set_name=True)\n", ["C06", "C08"]),
+ ("C12-experimental-popped-instead", "bromelia/bromelia.py", "            answer.pop(\"result_code_avp\")", "            answer.pop(\"experimental_result_avp\")", ["C12"]),
 ]
 
 def main():
